@@ -78,6 +78,9 @@ def model_value(model, v: Val, depth=0):
     if isinstance(s, RecS):
         return {"rec": s.key, "fields": {k: model_value(model, f, depth) for k, f in v.d.items()}}
     if isinstance(s, EnumS):
+        if s.ordinal:
+            i = model_value(model, v.d, depth)
+            return {"enum": s.key, "value": s.members[i][1] if isinstance(i, int) and 0 <= i < len(s.members) else i}
         return {"enum": s.key, "value": model_value(model, v.d, depth)}
     if isinstance(s, UnionS):
         t = ev(v.d[0])
